@@ -149,10 +149,16 @@ def _skeleton(f):
     for bb, t, fr in mir.iter_calls(f["mir"]):
         cp = fr and (fr.get("rp") or fr["p"])
         if cp:
-            c["call:" + re.sub(r"\b(f|u|i)(16|32|64|128)\b", "N", cp)] += 1
+            c["call:" + re.sub(r"(f|u|i)(16|32|64|128)", r"\1N", cp)] += 1
     return c
 
 
+# f32 / f64 siblings that legitimately differ in structure (one line of reason each)
+F32_F64_DIFFER = {
+    "<f32 as dashu_base::bit::FloatEncoding>::decode": "f32 decodes through i32 with an explicit sign product and a range test; f64 through i64 (two Ok arms)",
+    "dashu_int::convert::repr::to_f32_small": "a DoubleWord exceeds f32's range (infinity test needed) but not f64's",
+    "dashu_int::convert::repr::<impl dashu_int::repr::TypedReprRef<'a>>::to_f32": "f32 has a small-value path for a whole DoubleWord, f64 handles RefSmall inline",
+}
 SKELETON_SIBLINGS = [
     ("dashu_base", "<f32 as dashu_base::bit::FloatEncoding>::encode", "<f64 as dashu_base::bit::FloatEncoding>::encode"),
 ]
@@ -172,6 +178,30 @@ def _r06_4(res, P, cfgname):
         else:
             diff = {k: (sa[k], sb[k]) for k in set(sa) | set(sb) if sa[k] != sb[k]}
             res.fail("R06.4", cfgname, key, "the f32 and f64 implementations of one IEEE encoding step differ in structure (shape: count in f32 vs f64): %s" % dict(list(diff.items())[:3]), span_loc(fb["sp"]))
+    # every other f32 / f64 pair of functions (same path up to the width): same skeleton, or reviewed
+    by = {}
+    for f in P.fns():
+        if f["crate"].startswith("dashu") and f["crate"] != "dashu_macros" and f.get("mir") and f.get("kind") != "Closure":
+            by.setdefault(f["p"], f)
+    npairs = 0
+    for p in sorted(by):
+        if "f32" not in p:
+            continue
+        q = p.replace("f32", "f64")
+        if q == p or q not in by or (by[p]["crate"], p, q) in SKELETON_SIBLINGS:
+            continue
+        npairs += 1
+        key = "%s ~ f64 sibling" % p
+        sa, sb = _skeleton(by[p]), _skeleton(by[q])
+        exc = next((w for k_, w in F32_F64_DIFFER.items() if p.endswith(k_)), None)
+        if sa == sb:
+            res.ok("R06.4", cfgname, key, nontrivial=sum(sa.values()) > 3)
+        elif exc:
+            res.ok("R06.4", cfgname, key + " (reviewed difference)", sample=dict(function=p, reason=exc))
+        else:
+            diff = {k: (sa[k], sb[k]) for k in set(sa) | set(sb) if sa[k] != sb[k]}
+            res.fail("R06.4", cfgname, key, "%s and its f64 sibling differ in structure (shape: count in f32 vs f64): %s" % (p, dict(list(diff.items())[:3])), span_loc(by[p]["sp"]))
+    res.floor("R06.4", cfgname, npairs, 30, "f32 / f64 sibling function pairs")
     # integer -> float: bits kept, sticky range and exponent come from one split position
     for name in ("to_f32_nontrivial", "to_f64_nontrivial"):
         f = next((g for g in P.fns("dashu_int") if g.get("name") == name), None)
